@@ -360,6 +360,8 @@ def run(ck, tier):
     _infl.run(ck, F, 'C08')
     from . import mustpass as _mp
     _mp.run(ck, F, 'C08')
+    from . import c08x
+    c08x.run(ck, F)
     from . import accum as _acc
     _acc.run(ck, F, 'C08')
     run_census(ck, F)
